@@ -141,6 +141,15 @@ int32_t psPkcs1ParsePrivFile(psPool_t *pool, const char *fileName,
             psFree(DERout, pool);
             return rc;
         }
+        if (pubkey.type != PS_RSA)
+        {
+            /* A PKCS#8 file can hold a key of any algorithm; only an RSA
+               key has a valid pubkey.key.rsa to copy from. */
+            psTraceCrypto("psPkcs1ParsePrivFile: not an RSA key\n");
+            psClearPubKey(&pubkey);
+            psFree(DERout, pool);
+            return PS_PARSE_FAIL;
+        }
         rc = psRsaCopyKey(key, &pubkey.key.rsa);
         psClearPubKey(&pubkey);
 #   else
